@@ -450,6 +450,9 @@ BOUNDED = {
     "C05": [dict(family="listneg", obligation="list_shape/bounded-standin/listneg.list_is_empty",
                  known_cases="contracts/known_listneg_cases.txt",
                  what="list_is_empty / list_inhabited (assumed decider of C05): `a <: b | c` for tuple shapes with prefix <= 2 over {string, number} and an optional rest in {string, number}, against brute force over all lists of length <= 4 over three basic values"),
+            dict(family="listneg2", obligation="list_shape/bounded-standin/listneg2.list_is_empty",
+                 known_cases="contracts/known_listneg2_cases.txt",
+                 what="the same decider on a larger universe: prefixes up to length 3 over {string, number}, optional rest; `a <: b | c` for all 45^3 triples and `a <: b | c | d` with thinned negatives, 151020 questions, against brute force over all lists of length <= 5"),
             dict(family="mapneg", obligation="mapping_dnf/bounded-standin/mapneg.dnf_mapping_is_empty",
                  known_cases="contracts/known_mapneg_cases.txt",
                  what="dnf_mapping_is_empty / check_mapping_empty (assumed per-clause steps of the object decider): `A <: B | C` for objects with properties a, b (absent / required / optional, string or number) and an optional index signature over `string` or over the keys \"a\" | \"c\" (TypeScript-valid shapes only), against brute force over the 27 objects with keys a, b, c; exact reading on the left, structural on the right"),
